@@ -594,4 +594,15 @@ Section Clone.
     { intros x Hx. destruct (B1 x Hx) as [[<-|[]]|Hl]; [right; lia|now left]. }
     unfold addr in *. rewrite C2. eauto.
   Qed.
+
+  (** what checkStructure accepts is a tree of heap objects: the objects walked are pairwise
+      distinct, all allocated, and include the root *)
+  Theorem check_accepts_tree n h a s :
+    check n h [] a = Some s -> NoDup s /\ (forall x, In x s -> x < length h) /\ In a s.
+  Proof.
+    intros H. destruct (check_sound _ _ _ _ _ H) as (B & N & _ & Ia). repeat split.
+    - apply N. constructor.
+    - intros x Hx. destruct (B x Hx) as [[]|]; assumption.
+    - exact Ia.
+  Qed.
 End Clone.
